@@ -10,6 +10,8 @@ from dataclasses import dataclass, field
 from typing import Any, Dict, List, Optional, Tuple
 
 
+from .canon import canonicalise
+
 class AnalysisError(Exception):
     """The analyser (not the analysed code) needs attention: exit code 2."""
 
@@ -122,6 +124,7 @@ class Program:
                     tree = ast.parse(src, filename=path)
                 except SyntaxError as e:  # the tree does not even compile
                     raise AnalysisError(f"cannot parse {rel}: {e}")
+                tree = canonicalise(tree)
                 self.modules[mod] = ModuleInfo(mod, path, rel, src, tree)
 
     def _collect(self, m: ModuleInfo) -> None:
